@@ -1,6 +1,7 @@
 /- Atto/Driver/SendOp.lean — op `send`: a whole exchange (prepare, redirect loop, tunnel). -/
 import Atto.Driver.Codec
 import Atto.Model.Send
+import Atto.Model.SendT
 namespace Atto.Driver
 open Atto
 
@@ -105,8 +106,11 @@ def hopOutToString (h : HopOut) : String :=
   s!"{hexOfBytes h.dialScheme}:{hexOfBytes h.dialHost}:{h.dialPort}:{hexOrDash h.wrote}:{tls}"
 
 /-- `send <METHOD> <cfg> <ops|-> <body> <url> <hops>`; hops separated by `|`.
-    The model writes header lines in sorted order (HeaderMap iteration order is canonicalised). -/
-def opSend (args : List String) : String :=
+    The model writes header lines in sorted order (HeaderMap iteration order is canonicalised).
+    `pt = true` (op `sendpt`): CONNECT tunnels without their TLS layer (`Model/SendT.lean`); every hop
+    then prints a sixth field, the request written inside the tunnel (`~` when there is none), and the
+    TLS name is printed as handed to the handshaker. -/
+def opSendGen (pt : Bool) (args : List String) : String :=
   match args with
   | [m, cfg, ops, body, url, hops] =>
     match cfgOfString cfg, (splitComma ops).mapM hopOp, bodyOfString body, urlOfString url,
@@ -117,9 +121,18 @@ def opSend (args : List String) : String :=
       let req : Req := { method := m.toUTF8.toList, methodM := methodOfString m, headers := prepared,
                          body := b, bodyRewindable := rw }
       -- canonical header order: sort once more at every hop (setHost appends)
-      let (outs, fin) := send cfg.s req 8192 u hs
-      let outs := outs.map (fun o => { o with wrote := canonWire o.wrote })
-      s!"hops={"|".intercalate (outs.map hopOutToString)} final={finalToString fin}"
+      if pt then
+        let (outs, fin) := sendT cfg.s req 8192 u hs
+        let show1 (o : HopOutT) : String :=
+          let h := o.out
+          let tls := match h.tlsName with | some n => hexOrDash n | none => "~"
+          let inner := match o.inner with | some w => hexOrDash (canonWire w) | none => "~"
+          s!"{hexOfBytes h.dialScheme}:{hexOfBytes h.dialHost}:{h.dialPort}:{hexOrDash (canonWire h.wrote)}:{tls}:{inner}"
+        s!"hops={"|".intercalate (outs.map show1)} final={finalToString fin}"
+      else
+        let (outs, fin) := send cfg.s req 8192 u hs
+        let outs := outs.map (fun o => { o with wrote := canonWire o.wrote })
+        s!"hops={"|".intercalate (outs.map hopOutToString)} final={finalToString fin}"
     | _, _, _, _, _ => "bad-op"
   | _ => "bad-op"
 where
@@ -145,5 +158,8 @@ where
   insLine (l : Bytes) : List Bytes → List Bytes
     | [] => [l]
     | q :: qs => if hexOfBytes (lineName q) ≤ hexOfBytes (lineName l) then q :: insLine l qs else l :: q :: qs
+
+def opSend (args : List String) : String := opSendGen false args
+def opSendPt (args : List String) : String := opSendGen true args
 
 end Atto.Driver
